@@ -164,6 +164,7 @@ func c15(c *Ctx) {
 	r.Min("C15.noninterference", 4)
 	r.Min("C15.maxlen", 3)
 	c15HKDF(c)
+	hmacKeyRaw(c, "C15.keyraw", "prf/subtle", "prf/hmacprf")
 	digestSizeTables(c, "C15")
 }
 
